@@ -451,9 +451,24 @@ class BasicVisitor(NodeVisitor):
     def visit_lhs(self, _, visited_children):
         return visited_children[0]
 
+    @staticmethod
+    def _decb_float(text: str) -> float:
+        """
+        Converts a Color BASIC numeric literal. Color BASIC reads "." as 0,
+        an exponent without digits ("1E", "1E+") as E0 and folds repeated
+        signs ("--2" is 2).
+        """
+        text = text.replace(" ", "")
+        body = text.lstrip("+-")
+        negative = text[: len(text) - len(body)].count("-") % 2 == 1
+        mantissa, _, exponent = body.partition("E")
+        mantissa = "0" if mantissa in ("", ".") else mantissa
+        exponent = "0" if exponent in ("", "+", "-") else exponent
+        value = float(f"{mantissa}E{exponent}")
+        return -value if negative else value
+
     def visit_num_literal(self, node, visited_children):
-        num_literal = node.full_text[node.start : node.end].replace(" ", "")
-        return BasicLiteral(float(num_literal))
+        return BasicLiteral(self._decb_float(node.full_text[node.start : node.end]))
 
     def visit_int_literal(self, node, visited_children):
         num_literal = node.full_text[node.start : node.end].replace(" ", "")
